@@ -175,8 +175,14 @@ def check_pair(ctx, A, B, tags, S, form, label, plain_diff):
         ctx.count('hidden_edits')
         if dj:
             cats = sorted(set(c for g in (tags.get('multi') or (tags['cats'],)) for c in g if c in S and c != 'sources'))
-            ctx.violation('%s|NOT-EMPTY|%s' % (PROP, '+'.join(cats)),
-                          'notebooks differ only in ignored %s but the diff is not empty' % '/'.join(cats), case)
+            # name the categories whose entries actually leaked (one violation per category), so that combinations of edits do not
+            # multiply fingerprints; a non-empty diff that no leaked entry explains gets its own fingerprint
+            leaking = sorted(set(cat for cat, p, op in leaked_entries(dj, S)))
+            for cat in leaking:
+                ctx.violation('%s|NOT-EMPTY|%s' % (PROP, cat), 'notebooks differ only in ignored %s but the diff is not empty (leaking: %s)' % ('/'.join(cats), cat), case)
+            if not leaking:
+                ctx.violation('%s|NOT-EMPTY|unexplained|%s' % (PROP, '+'.join(cats)),
+                              'notebooks differ only in ignored %s but the diff is not empty' % '/'.join(cats), case)
     if not S and plain_diff is not None and canon(dj) != plain_diff:
         ctx.violation('%s|EMPTY-SET-DIFFERS' % PROP, 'diff with nothing ignored differs from the default diff', case)
 
